@@ -428,8 +428,45 @@ def list_level(ctx: Ctx, rep: Report) -> None:
             rep.violation(m.qualname, snippet(c), f"`a.subnet_of(b)` must test a's networks (bottoms) inside b's (tops): the arguments are crossed", where(m, c), inp="every /24 would be a subnet of its hosts")
 
 
+def address_patterns_whole(ctx: Ctx, rep: Report, rid: str = "R13.7") -> None:
+    """A pattern that stands for a dotted address takes the WHOLE address wherever it is used without an end anchor: for
+    every module-level pattern constant that matches `10.0.0.1`, an unanchored match on a longer address (last octet of
+    three digits) returns all of it (an alternation that tries two digits before three cuts `10.0.0.112` to `10.0.0.11`:
+    the address that is compared is not the address that was written)."""
+    import re as _re2
+
+    rep.rule(rid)
+    witnesses = ["10.0.0.112", "192.168.199.200", "255.255.255.255", "100.100.100.100", "1.2.3.4", "10.20.30.199"]
+    n = 0
+    for mod in ctx.prog.modules.values():
+        env = ctx.folder.module_env(mod)
+        for name, val in sorted(env.items()):
+            if not isinstance(val, str) or not name.isupper():
+                continue
+            try:
+                pat = _re2.compile(val)
+            except _re2.error:
+                continue
+            if not pat.fullmatch("10.0.0.1"):
+                continue
+            n += 1
+            rep.instance()
+            cut = []
+            for w in witnesses:
+                m1 = pat.match(w)
+                m2 = pat.search(f"host {w} any")
+                if not (m1 and m1.group() == w and m2 and m2.group() == w):
+                    cut.append((w, m1.group() if m1 else None))
+            if cut:
+                rep.violation(f"{mod.short}.{name}", f"pattern {val[:60]!r}", f"an unanchored match does not take the whole address: {cut[0][0]} is read as {cut[0][1]} (an earlier alternative matches a prefix of what a later one would match): containment is answered for another address", f"cisco_acl/{mod.short}.py", inp=f"Address('host {cut[0][0]}')")
+            else:
+                rep.ok(f"{mod.short}.{name}", "takes the whole dotted address in an unanchored match (6 witnesses)", where=f"cisco_acl/{mod.short}.py")
+    rep.floor(1, "module-level address patterns") if n else rep.note(f"{rid} no module-level pattern constant matches a dotted address")
+
+
 def run(ctx: Ctx, rep: Report, tier: str) -> None:
     list_level(ctx, rep)
+    address_patterns_whole(ctx, rep)
     rep.rule("R13.3")
     n = 0
     for q in ("AddressBase.__contains__", "AddrGroup.__contains__"):
